@@ -207,6 +207,8 @@
         std::mem::forget(out); std::mem::forget(w);
     }
 
+    // measured (fifth session): take_err with EVERY discriminant concrete (stored BrokenPipe, original BadInclude, source chain
+    // inspected) still does not finish (solver timeout after 400 s): the cost is the dyn Error source chain, not the case split
     // ---- the emit sites of eval_impl and the API boundary are G-VM: BOUNDED native stand-in with a failing sink
 //# ob name=failing_sink_native role=native_bounded fn=template::Template::render_captured_to+vm::state::State::render_block_to_write+utils::write_escaped kind=bounded bound="9 programs (plain, html-escaped text with metacharacters, loop, macro, set-block, filter block, include, extends+super, nested include in block) x sink failure at the k-th write call for every k up to the total x error kinds {BrokenPipe, Other, WouldBlock}; a one-byte-per-call sink with a zero-length write at every call index; plus render_block_to_write with a sink that recovers after its failure" stmt="the bytes delivered to the writer are always a prefix of the plain render, in order, without duplication; when the writer fails rendering stops (no write call after the failed one), and the call returns a WriteFailure error whose source chain contains the writer's own io::Error with the same kind; the failure is never swallowed or reported as a different kind"
     fn failing_sink_native() {
